@@ -427,6 +427,12 @@ func verifRemove(name string) error {
 
 func verifReadFile(name string) ([]byte, error) {
 	verifStep(true, "readfile", name)
+	if verifNative.faultRead > 0 {
+		verifNative.faultRead--
+		if verifNative.faultRead == 0 {
+			return nil, &os.PathError{Op: "read", Path: name, Err: syscall.EIO}
+		}
+	}
 	return ioutil.ReadFile(name)
 }
 
